@@ -158,7 +158,13 @@ impl Engine for C01 {
             Phase::new("annotation matrix: 17 keys x 14 value shapes x 9 positions x 8 targets", json!({"kind":"annotations"})),
             Phase::new("two modules: function bodies <=2 x arguments <=2 x 6 use sites", json!({"kind":"two","kb":2,"ka":2})),
         ];
+        for (i, n) in crate::frags::NAMES.iter().enumerate() {
+            v.push(Phase::new(&format!("fragment {n}"), json!({"kind":"frag","frag":i,"thorough":false})));
+        }
         if tier == Tier::Thorough {
+            for i in crate::frags::HAS_NEXT_BOUND {
+                v.push(Phase::new(&format!("fragment {} (next bound)", crate::frags::NAMES[i]), json!({"kind":"frag","frag":i,"thorough":true})));
+            }
             v.push(Phase::new("two modules: function bodies of 3 x arguments <=2 x 6 use sites", json!({"kind":"two","kb":3,"ka":2})));
             v.push(Phase::new("kind-agnostic expressions of 4 constructors x 26 contexts", json!({"kind":"agnostic","k":4})));
         }
@@ -184,6 +190,18 @@ impl Engine for C01 {
                             }
                             idx += 1;
                         }
+                    }
+                }
+            }
+            "frag" => {
+                let i = phase.param["frag"].as_u64().unwrap() as usize;
+                let frag = crate::frags::fragment(i, phase.param["thorough"].as_bool().unwrap());
+                for (idx, p) in frag.programs.iter().enumerate() {
+                    if sink.mine(idx as u64) {
+                        if sink.expired() {
+                            return;
+                        }
+                        visit_program(sink, idx as u64, p);
                     }
                 }
             }
